@@ -1356,3 +1356,35 @@ func matchClass(p, s []byte) (ok bool, rest []byte, valid bool) {
 	}
 	return matched != neg, p[i:], true
 }
+
+// Key is a canonical text of the dataset (for state equality / hashing).
+func (m *Model) Key() string {
+	var sb strings.Builder
+	for _, k := range sortedKeys(m.Cols) {
+		sb.WriteString(strconv.Quote(k) + "{")
+		col := m.Cols[k]
+		for _, id := range sortedKeys(col) {
+			o := col[id]
+			sb.WriteString(strconv.Quote(id) + "=")
+			if o.Str {
+				sb.WriteString("s:" + strconv.Quote(o.Text))
+			} else {
+				sb.WriteString("g:" + o.Text + o.Lit)
+			}
+			sb.WriteString("[")
+			for _, f := range sortedKeys(o.Fields) {
+				sb.WriteString(strconv.Quote(f) + ":" + strconv.Quote(o.Fields[f].Data) + ",")
+			}
+			sb.WriteString("]")
+			if o.HasEx {
+				sb.WriteString("!")
+			}
+			sb.WriteString(";")
+		}
+		sb.WriteString("}")
+	}
+	for _, h := range sortedKeys(m.Hooks) {
+		sb.WriteString("|" + h + "@" + m.Hooks[h].Key)
+	}
+	return sb.String()
+}
